@@ -247,4 +247,6 @@ func checkC01(c *Check) {
 	// the protected header is decoded once by name-exact rules: a member that differs from a
 	// specification name only by case must not override the reported attribute (O-C02.5)
 	c.floor("header-name rules (shared with C02)", 3, shareRules(c, checkC02, []string{"O-C02.5"}, "O-C01.6", "header names: "))
+	// the reported signing time and expiry are the decoded header values, unchanged (O-C07.5)
+	c.floor("time attribute rules (shared with C07)", 4, shareRules(c, checkC07, []string{"O-C07.5"}, "O-C01.6", "times: "))
 }
